@@ -20,7 +20,7 @@ SHARDS = {'thorough': 16}
 NAMES = ['org.verif.A', 'org.verif.B']
 IFACES = ['a.b', 'a.bc']
 MEMBERS = ['M', 'N']
-PATHS = ['/a', '/a/b', '/a/bc']
+PATHS = ['/a', '/a/b', '/a/bc', '/a/' + 'p' * 300]        # (paths have no length limit of their own)
 BUS = 'org.freedesktop.DBus'
 
 BODIES = [
